@@ -204,6 +204,8 @@ pub mod error;
 pub mod join;
 pub mod prelude;
 pub mod storage;
+#[cfg(feature = "verif-hooks")]
+pub mod verif;
 pub mod world;
 
 pub use hibitset::BitSet;
